@@ -82,7 +82,7 @@ O(k) == <<"us", ToString(k)>>      \* output fields: _1 _2 ...
 Rec2(x, y) == << F(S1, VStr(x)), F(S2, VStr(y)) >>
 Stream1 == << Rec2(<<"a", "B", "1">>, <<"b">>), Rec2(<<"a", "b", "1">>, <<"A", "b">>), Rec2(<<"A", "B">>, <<"1">>),
               Rec2(<<"a", "B", "1">>, <<"e2", "b", "B">>) >>
-Stream2 == << Rec2(<<"A", "b">>, <<"a">>), Rec2(<<"e2", "a", "b">>, <<"B">>), Rec2(<<"A", "b">>, <<"a", "1">>), Rec2(<<"1">>, <<>>) >>
+Stream2 == << Rec2(<<"A", "b">>, <<"a">>), Rec2(<<"e2", "a", "b">>, <<"B">>), Rec2(<<"A", "b">>, <<"a", "1">>), Rec2(<<"1">>, <<"B", "1">>) >>
 Streams == {Stream1, Stream2}
 Prog(recs, chain) == [recs |-> recs, chain |-> chain]
 
@@ -112,12 +112,13 @@ MidVerbs(re) == {SubV("sub", <<S1>>, Lit1(re), <<"us">>), SubV("gsub", <<S1, S2>
                  CutV(<<RX("liti", re, <<>>)>>, FALSE), CutV(<<RX("lit", re, <<>>), RX("lit", R1(<<Lit("us")>>), <<>>)>>, FALSE),
                  CutV(<<RX("liti", re, <<>>)>>, TRUE),
                  HavingV("any", RX("liti", re, <<>>)), HavingV("none", RX("lit", re, <<>>)), HavingV("all", RX("liti", R1(<<Q(Dot, "*")>> \o Kids(re[1])), <<>>)),
-                 RenameV(RX("liti", re, <<>>), <<"us", "bsl", "0">>, FALSE), RenameV(RX("lit", re, <<>>), <<"e2">>, TRUE),
+                 RenameV(RX("liti", re, <<>>), IF NG(re) > 0 THEN <<"us", "bsl", "1">> ELSE <<"us">>, FALSE), RenameV(RX("lit", re, <<>>), <<"e2">>, TRUE),
                  GrepV(RX("liti", re, <<>>), FALSE), GrepV(RX("lit", re, <<>>), TRUE)}
 ChainFns == {<<"sub", "sub">>, <<"gsub", "match">>, <<"match", "regextract_or_else">>, <<"regextract_or_else", "gsub">>}
               \cup (IF Big THEN {<<"strmatchx", "regextract">>, <<"regextract", "sub">>, <<"match", "match">>} ELSE {})
-PChain == UNION {{Prog(rs, << PutV(Use(ff[1], 1, S1, RX(c1, re, <<>>), TRUE), Fn0), v, PutV(Use(ff[2], 3, S2, RX(c2, re, <<>>), TRUE), Fn0) >>) :
-                    rs \in Streams, v \in MidVerbs(re), ff \in ChainFns, c1 \in {"lit", "liti"}, c2 \in {"lit", "liti"}} : re \in SharedFew}
+ChainModes == {<<"lit", "liti">>, <<"liti", "lit">>, <<"lit", "lit">>} \cup (IF Big THEN {<<"liti", "liti">>} ELSE {})
+PChain == UNION {{Prog(rs, << PutV(Use(ff[1], 1, S1, RX(cc[1], re, <<>>), TRUE), Fn0), v, PutV(Use(ff[2], 3, S2, RX(cc[2], re, <<>>), TRUE), Fn0) >>) :
+                    rs \in (IF Big THEN Streams ELSE {Stream1}), v \in MidVerbs(re), ff \in ChainFns, cc \in ChainModes} : re \in SharedFew}
 
 \* (3) captures: set in one statement, used after intervening failed / successful matches, function calls, other regex functions
 ShowT == <<"lt", "bsl", "1", "colon", "bsl", "2", "gt">>
@@ -130,7 +131,7 @@ Ops(k) == {St("match", O(k), S1, Lit1(pGG), <<>>), St("match", O(k), S2, RX("lit
 Firsts3 == {St("match", O(1), S1, Lit1(pGG), <<>>), St("match", O(1), S2, RX("liti", paGb, <<>>), <<>>), St("interp", O(1), <<>>, Rx0, ShowT),
             St("notmatch", O(1), S1, Lit1(paGb), <<>>)}
 WithFn(s2, s3) == IF "call" \in {s2.k, s3.k} THEN {FnM, FnN} ELSE {FnN}
-PCaps == UNION {{Prog(rs, << PutV(<<s1, s2, s3, St("interp", O(4), <<>>, Rx0, ShowT)>>, fn) >>) : rs \in Streams, s1 \in Firsts3, fn \in WithFn(s2, s3)} :
+PCaps == UNION {{Prog(rs, << PutV(<<s1, s2, s3, St("interp", O(4), <<>>, Rx0, ShowT)>>, fn) >>) : rs \in (IF Big THEN Streams ELSE {Stream1}), s1 \in Firsts3, fn \in WithFn(s2, s3)} :
                   s2 \in Ops(2), s3 \in Ops(3)}
          \cup {Prog(rs, << PutV(<<s1, St("interp", O(2), <<>>, Rx0, ShowT)>>, FnN), PutV(<<St("interp", O(3), <<>>, Rx0, ShowT), s2, St("interp", O(5), <<>>, Rx0, ShowT)>>, FnN) >>) :
                  rs \in Streams, s1 \in Firsts3, s2 \in Ops(4)}
@@ -152,12 +153,13 @@ PField == {Prog(rs, << PutV(Use(f1, 1, S1, FRX, FALSE) \o Use(f2, 3, S1, RX(c, r
 NRec(ns, x) == [k \in 1..Len(ns) |-> F(ns[k], VStr(x))]
 NStreams == { << NRec(<< <<"a">>, <<"A", "b">>, <<"b", "1">>, <<"e2">> >>, <<"a", "b">>), NRec(<< <<"B">>, <<"1">> >>, <<"b">>), NRec(<< <<"a", "b", "a">> >>, <<>>) >>,
               << NRec(<< <<"b">>, <<"B", "b">> >>, <<"A", "b", "a", "B">>), NRec(<< <<"e2", "a">>, <<"A", "1">>, <<"a", "A">> >>, <<"B">>) >> }
-VerbRes == Shared \cup {R1(<<Q(Dot, "*")>>), R1(<<Bol, cab, Eol>>), R1(<<Bol, Q(nota, "+"), Eol>>), R1(<<Q(Grp(R1(<<Dot>>)), "")>>), R2(<<Bol, la>>, <<l1, Eol>>)}
+VerbRes == {pB, paGb, pUA, pCls, R1(<<Bol, cab, Eol>>), R1(<<Q(Grp(R1(<<Dot>>)), "")>>), R2(<<Bol, la>>, <<l1, Eol>>)}
+             \cup (IF Big THEN Shared \cup {R1(<<Q(Dot, "*")>>), R1(<<Bol, Q(nota, "+"), Eol>>)} ELSE {})
 VerbSrc == {"lit", "liti"}
 PVerbs == {Prog(rs, <<v>>) : rs \in NStreams, v \in
              UNION {{CutV(<<RX(c, re, <<>>)>>, x) : x \in BOOLEAN} \cup {CutV(<<RX(c, re, <<>>), RX("lit", pUA, <<>>)>>, FALSE)}
                     \cup {HavingV(m, RX(c, re, <<>>)) : m \in {"any", "all", "none"}}
-                    \cup {RenameV(RX(c, re, <<>>), t, g) : g \in BOOLEAN, t \in {<<"us">>, <<"lt", "bsl", "1", "gt">>, <<"bsl", "0", "bsl", "0">>}}
+                    \cup {RenameV(RX(c, re, <<>>), t, g) : g \in BOOLEAN, t \in {<<"us">>, <<"e2", "1">>} \cup (IF NG(re) > 0 THEN {<<"lt", "bsl", "1", "gt">>} ELSE {})}
                     \cup {GrepV(RX(c, re, <<>>), x) : x \in BOOLEAN}
                     \cup {SubV(vn, f, RX("lit", re, <<>>), t) : vn \in {"sub", "gsub", "ssub"}, f \in {<< <<"a">>, <<"b">> >>, << <<"A", "b">>, <<"B">>, <<"e2", "a">>, <<"2">> >>},
                                                                 t \in {<<"us">>, <<"e2", "e2">>}}
